@@ -1930,4 +1930,671 @@ theorem lfq_relabel {σ : Nat → Nat} (hσ : Function.Injective σ) {n : Nat}
 
 end FinalRelabel
 
+/-! ## The written table: selection on rows, SILAC channels, fractions, header names (model section "The written table") -/
+
+/-! ### stage A with a given selection -/
+
+theorem stageA_eq_with (o : Opts) (l : List Prec) : stageA o l = stageAWith o (selected o.cutoff l) l := rfl
+
+theorem stageAWith_eqs_pairs (o : Opts) (sel lstab : List Prec) :
+    (stageAWith o sel lstab).eqs.map (fun q => (q.i, q.j)) =
+      pairs o.minRatios o.n o.graph o.minSamples (column sel) := by
+  unfold stageAWith
+  simp only [List.map_map]
+  conv_rhs => rw [← List.map_id (pairs _ _ _ _ _)]
+  apply List.map_congr_left
+  intro e _
+  simp [pairEq]
+
+theorem stageAWith_system (o : Opts) (sel lstab : List Prec) :
+    (stageAWith o sel lstab).system = buildSystem o.n ((stageAWith o sel lstab).eqs.map (fun q => (q.i, q.j))) := by
+  rw [stageAWith_eqs_pairs]; rfl
+
+theorem stageAWith_eq_mem (o : Opts) (sel lstab : List Prec) (q : PairEq) (hq : q ∈ (stageAWith o sel lstab).eqs) :
+    q.i < q.j ∧ q.j < o.n ∧
+    pairOk o.minRatios o.graph o.minSamples (numValid o.minRatios o.n (column sel)) (column sel) q.i q.j = true ∧
+    q.ratio = ratio (column sel) q.i q.j ∧ (o.stab = false → q.w = 0) := by
+  unfold stageAWith at hq
+  simp only [List.mem_map] at hq
+  obtain ⟨e, he, rfl⟩ := hq
+  rw [mem_pairs] at he
+  refine ⟨he.1, he.2.1, he.2.2, rfl, ?_⟩
+  intro hs
+  simp [pairEq, hs]
+
+theorem rhs_of_consistent_with (o : Opts) (sel lstab : List Prec) (hstab : o.stab = false) (hm : 1 ≤ o.minRatios)
+    (f : String × Int → Rat) (g : Nat → Rat) (hf : ∀ k, f k ≠ 0) (hg : ∀ s, 0 < g s)
+    (hc : ∀ k ∈ rowKeys sel, ∀ s, s < o.n → cell sel k s = 0 ∨ cell sel k s = f k * g s) :
+    ∀ q ∈ (stageAWith o sel lstab).eqs, rhs q = Real.log ((g q.i : ℝ)) - Real.log ((g q.j : ℝ)) := by
+  intro q hq
+  obtain ⟨h1, h2, hok, hr, hw⟩ := stageAWith_eq_mem o sel lstab q hq
+  have hratio : q.ratio = g q.i / g q.j := by
+    rw [hr]
+    exact ratio_of_consistent_cells _ o.n f g hf q.i q.j (by omega) h2 hc (shared_pos_of_pairOk hm hok)
+  unfold rhs
+  rw [hw hstab, hratio]
+  have h1 : ((g q.i : ℚ) : ℝ) ≠ 0 := by exact_mod_cast (hg q.i).ne'
+  have h2 : ((g q.j : ℚ) : ℝ) ≠ 0 := by exact_mod_cast (hg q.j).ne'
+  push_cast
+  rw [Real.log_div h1 h2]
+  ring
+
+theorem consistent_lfq_with (o : Opts) (sel lstab : List Prec) (hn : 2 ≤ o.n) (hstab : o.stab = false)
+    (hm : 1 ≤ o.minRatios) (f : String × Int → Rat) (g : Nat → Rat) (hf : ∀ k, f k ≠ 0)
+    (hg : ∀ s, 0 < g s)
+    (hc : ∀ k ∈ rowKeys sel, ∀ s, s < o.n → cell sel k s = 0 ∨ cell sel k s = f k * g s)
+    (y : Nat → ℝ) (hls : IsLeastSquares (stageAWith o sel lstab).eqs (stageAWith o sel lstab).system y)
+    (i0 : Nat) (hconn : ∀ s, s < o.n → Linked (stageAWith o sel lstab).eqs i0 s)
+    (s : Nat) (hs : s < o.n) :
+    lfq o.n (stageAWith o sel lstab).system.zeroCols ((stageAWith o sel lstab).total : ℝ) (fun t => Real.exp (y t)) s =
+      ((stageAWith o sel lstab).total : ℝ) * (g s : ℝ) / vsum o.n (fun t => (g t : ℝ)) := by
+  have hlt : ∀ q ∈ (stageAWith o sel lstab).eqs, q.i < o.n ∧ q.j < o.n := by
+    intro q hq
+    have := stageAWith_eq_mem o sel lstab q hq
+    omega
+  have hcons := rhs_of_consistent_with o sel lstab hstab hm f g hf hg hc
+  rw [stageAWith_system] at hls ⊢
+  exact consistent_lfq_aux o.n hn _ hlt (fun t => (g t : ℝ)) (fun t => by exact_mod_cast hg t) y hcons hls
+    i0 hconn _ s hs
+
+/-! ### selection on rows = selection on their base fields -/
+
+theorem insertBy_map_base (a : Row) : ∀ l : List Row,
+    (insertBy rowLe a l).map Row.base = insertBy precLe a.base (l.map Row.base)
+  | [] => rfl
+  | b :: r => by
+    have ih := insertBy_map_base a r
+    by_cases h : precLe a.base b.base = true
+    · have h' : rowLe a b = true := h
+      simp [insertBy, h, h']
+    · have h' : ¬ rowLe a b = true := h
+      simp [insertBy, h, h', ih]
+
+theorem isort_map_base : ∀ l : List Row, (isort rowLe l).map Row.base = isort precLe (l.map Row.base)
+  | [] => rfl
+  | a :: r => by simp [isort, insertBy_map_base, isort_map_base r]
+
+theorem firstsAuxR_map_base : ∀ (l : List Row) (prev : Option Row),
+    (firstsAuxR prev l).map Row.base = firstsAux (prev.map Row.base) (l.map Row.base)
+  | [], prev => by cases prev <;> rfl
+  | p :: r, none => by simp [firstsAuxR, firstsAux, firstsAuxR_map_base r (some p)]
+  | p :: r, some q => by
+    simp only [firstsAuxR, firstsAux, List.map_cons, Option.map_some]
+    split
+    · exact firstsAuxR_map_base r (some q)
+    · simp [firstsAuxR_map_base r (some p)]
+
+theorem selectedRows_base (c : Rat) (l : List Row) :
+    (selectedRows c l).map Row.base = selected c (l.map Row.base) := by
+  unfold selectedRows selected
+  rw [firstsAuxR_map_base, isort_map_base, List.filter_map]
+  rfl
+
+
+theorem mem_of_mem_firstsAuxR : ∀ (L : List Row) (prev : Option Row) (x : Row), x ∈ firstsAuxR prev L → x ∈ L
+  | [], prev, x, hx => by cases prev <;> simp [firstsAuxR] at hx
+  | a :: L, none, x, hx => by
+    simp only [firstsAuxR, List.mem_cons] at hx
+    rcases hx with rfl | hx
+    · exact List.mem_cons_self
+    · exact List.mem_cons_of_mem _ (mem_of_mem_firstsAuxR L _ x hx)
+  | a :: L, some q, x, hx => by
+    simp only [firstsAuxR] at hx
+    split at hx
+    · exact List.mem_cons_of_mem _ (mem_of_mem_firstsAuxR L _ x hx)
+    · rw [List.mem_cons] at hx
+      rcases hx with rfl | hx
+      · exact List.mem_cons_self
+      · exact List.mem_cons_of_mem _ (mem_of_mem_firstsAuxR L _ x hx)
+
+/-- the selection only drops rows -/
+theorem mem_of_mem_selectedRows (c : Rat) (l : List Row) (r : Row) (h : r ∈ selectedRows c l) :
+    r ∈ l ∧ keep c r.base = true := by
+  have h2 := mem_of_mem_firstsAuxR _ none r h
+  rw [(isort_perm rowLe _).mem_iff] at h2
+  exact List.mem_filter.mp h2
+
+/-! ### label-free tables: nothing new -/
+
+theorem flatMap_expandRow_zero (rs : List Row) : rs.flatMap (expandRow 0) = rs.map Row.base := by
+  induction rs with
+  | nil => rfl
+  | cons r rs ih => simp [List.flatMap_cons, expandRow, ih]
+
+theorem tableStageA_labelfree (o : Opts) (rows : List Row) :
+    tableStageA o 0 rows = stageA o ((retainIdentified o.cutoff rows).map Row.base) := by
+  unfold tableStageA tableSel tableStab
+  rw [flatMap_expandRow_zero, flatMap_expandRow_zero, selectedRows_base, stageA_eq_with]
+  have : ({ o with n := numSamples o.n 0 } : Opts) = o := by
+    cases o; simp [numSamples]
+  rw [this]
+
+/-! ### SILAC: what the cell of a labelled sample holds -/
+
+theorem cell_nil (k : String × Int) (s : Nat) : cell [] k s = 0 := rfl
+
+theorem cell_append (a b : List Prec) (k : String × Int) (s : Nat) : cell (a ++ b) k s = cell a k s + cell b k s := by
+  unfold cell
+  rw [List.filter_append, List.map_append, List.sum_append]
+
+theorem total_append (a b : List Prec) : total (a ++ b) = total a + total b := by
+  unfold total
+  rw [List.map_append, List.sum_append]
+
+theorem cell_flatMap (f : Row → List Prec) (k : String × Int) (s : Nat) : ∀ rs : List Row,
+    cell (rs.flatMap f) k s = (rs.map (fun r => cell (f r) k s)).sum
+  | [] => rfl
+  | r :: rs => by simp [List.flatMap_cons, cell_append, cell_flatMap f k s rs]
+
+theorem total_flatMap (f : Row → List Prec) : ∀ rs : List Row,
+    total (rs.flatMap f) = (rs.map (fun r => total (f r))).sum
+  | [] => rfl
+  | r :: rs => by simp [List.flatMap_cons, total_append, total_flatMap f rs]
+
+/-- the entries of one precursor: channel `c` (counted from the offset `c0`) goes to sample `e * C + c` -/
+theorem cell_expandFrom (b : Prec) (C : Nat) (k : String × Int) (e c : Nat) (hc : c < C) :
+    ∀ (xs : List Rat) (c0 : Nat), c0 + xs.length ≤ C →
+      cell (expandFrom b C c0 xs) k (e * C + c) =
+        if (b.peptide, b.charge) = k ∧ b.exp = e ∧ c0 ≤ c then xs.getD (c - c0) 0 else 0
+  | [], c0, _ => by simp [expandFrom, cell_nil]
+  | x :: xs, c0, h => by
+    have hlen : c0 + 1 + xs.length ≤ C := by simp at h; omega
+    have ih := cell_expandFrom b C k e c hc xs (c0 + 1) hlen
+    have hc0 : c0 < C := by simp at h; omega
+    rw [expandFrom, cell_cons, ih]
+    simp only
+    have hidx : b.exp * C + c0 = e * C + c ↔ b.exp = e ∧ c0 = c := by
+      constructor
+      · intro heq
+        have h1 : (b.exp * C + c0) / C = (e * C + c) / C := by rw [heq]
+        have h2 : (b.exp * C + c0) % C = (e * C + c) % C := by rw [heq]
+        rw [Nat.mul_comm b.exp, Nat.mul_comm e, Nat.mul_add_div (by omega), Nat.mul_add_div (by omega),
+          Nat.div_eq_of_lt hc0, Nat.div_eq_of_lt hc] at h1
+        rw [Nat.mul_comm b.exp, Nat.mul_comm e, Nat.mul_add_mod, Nat.mul_add_mod,
+          Nat.mod_eq_of_lt hc0, Nat.mod_eq_of_lt hc] at h2
+        omega
+      · rintro ⟨rfl, rfl⟩; rfl
+    by_cases hk : (b.peptide, b.charge) = k
+    · by_cases he : b.exp = e
+      · rcases Nat.lt_trichotomy c0 c with hlt | heq | hgt
+        · have hne : c0 ≠ c := by omega
+          have hsub : c - c0 = (c - (c0 + 1)) + 1 := by omega
+          simp [hk, he, hne, hlt.le, Nat.succ_le_of_lt hlt, hsub]
+        · subst heq
+          have : b.exp * C + c0 = e * C + c0 := by rw [he]
+          simp [hk, he]
+        · have hne : c0 ≠ c := by omega
+          have h1 : ¬ c0 ≤ c := by omega
+          have h2 : ¬ c0 + 1 ≤ c := by omega
+          simp [hk, he, hne, h1, h2]
+      · have : ¬ (b.exp * C + c0 = e * C + c) := by rw [hidx]; tauto
+        simp [hk, he, this]
+    · simp [hk]
+
+
+theorem cell_expandRow_silac {C : Nat} (hC : 0 < C) (r : Row) (hlen : r.silac.length ≤ C) (k : String × Int)
+    (e c : Nat) (hc : c < C) :
+    cell (expandRow C r) k (e * C + c) =
+      if (r.base.peptide, r.base.charge) = k ∧ r.base.exp = e then r.silac.getD c 0 else 0 := by
+  unfold expandRow
+  rw [if_neg (by omega), cell_expandFrom r.base C k e c hc r.silac 0 (by omega)]
+  simp
+
+/-- SILAC: the cell of row key `k` in the column of the labelled sample (experiment `e`, channel `c`) is the sum of
+    the channel-`c` intensities of the given rows of that key and experiment -/
+theorem cell_silac {C : Nat} (hC : 0 < C) (rs : List Row) (hlen : ∀ r ∈ rs, r.silac.length ≤ C)
+    (k : String × Int) (e c : Nat) (hc : c < C) :
+    cell (rs.flatMap (expandRow C)) k (e * C + c) =
+      ((rs.filter (fun r => (r.base.peptide, r.base.charge) == k && r.base.exp == e)).map
+        (fun r => r.silac.getD c 0)).sum := by
+  rw [cell_flatMap]
+  induction rs with
+  | nil => rfl
+  | cons r rs ih =>
+    have ih' := ih (fun x hx => hlen x (List.mem_cons_of_mem _ hx))
+    rw [List.map_cons, List.sum_cons, ih', cell_expandRow_silac hC r (hlen r List.mem_cons_self) k e c hc,
+      List.filter_cons]
+    by_cases h : (r.base.peptide, r.base.charge) = k ∧ r.base.exp = e
+    · simp [h]
+    · have : ((r.base.peptide, r.base.charge) == k && r.base.exp == e) = false := by
+        rw [Bool.eq_false_iff]; intro hc'; apply h; simpa using hc'
+      simp [h, this]
+
+theorem total_expandFrom (b : Prec) (C : Nat) : ∀ (xs : List Rat) (c0 : Nat), total (expandFrom b C c0 xs) = xs.sum
+  | [], _ => rfl
+  | x :: xs, c0 => by
+    have ih := total_expandFrom b C xs (c0 + 1)
+    unfold total at ih ⊢
+    simp [expandFrom, ih]
+
+/-- SILAC: `totalIntensity` is the sum of all channel intensities of the given rows -/
+theorem total_silac {C : Nat} (hC : 0 < C) (rs : List Row) :
+    total (rs.flatMap (expandRow C)) = (rs.map (fun r => r.silac.sum)).sum := by
+  rw [total_flatMap]
+  congr 1
+  apply List.map_congr_left
+  intro r _
+  unfold expandRow
+  rw [if_neg (by omega), total_expandFrom]
+
+theorem mem_expandFrom (b : Prec) (C : Nat) (p : Prec) : ∀ (xs : List Rat) (c0 : Nat), p ∈ expandFrom b C c0 xs →
+    p.peptide = b.peptide ∧ p.charge = b.charge ∧ p.fraction = b.fraction ∧ p.pep = b.pep ∧
+      ∃ c, c0 ≤ c ∧ c < c0 + xs.length ∧ p.exp = b.exp * C + c ∧ p.intensity = xs.getD (c - c0) 0
+  | [], _, h => by simp [expandFrom] at h
+  | x :: xs, c0, h => by
+    rw [expandFrom, List.mem_cons] at h
+    rcases h with rfl | h
+    · exact ⟨rfl, rfl, rfl, rfl, c0, le_refl _, by simp, rfl, by simp⟩
+    · obtain ⟨h1, h2, h3, h4, c, hc1, hc2, hc3, hc4⟩ := mem_expandFrom b C p xs (c0 + 1) h
+      refine ⟨h1, h2, h3, h4, c, by omega, by simp; omega, hc3, ?_⟩
+      have : c - c0 = (c - (c0 + 1)) + 1 := by omega
+      rw [hc4, this, List.getD_cons_succ]
+
+/-- every entry of the expanded rows is a sample `< n * max 1 C` -/
+theorem exp_lt_of_mem_expandRow {n C : Nat} (r : Row) (hn : r.base.exp < n) (hlen : r.silac.length ≤ C) (p : Prec)
+    (hp : p ∈ expandRow C r) : p.exp < numSamples n C := by
+  unfold expandRow at hp
+  unfold numSamples
+  by_cases hC : C = 0
+  · subst hC
+    simp at hp
+    subst hp
+    simpa using hn
+  · rw [if_neg hC] at hp
+    obtain ⟨_, _, _, _, c, _, hc2, hc3, _⟩ := mem_expandFrom r.base C p r.silac 0 hp
+    have hmax : max 1 C = C := by omega
+    rw [hmax, hc3]
+    have : (r.base.exp + 1) * C ≤ n * C := Nat.mul_le_mul_right C hn
+    have h2 : (r.base.exp + 1) * C = r.base.exp * C + C := by ring
+    omega
+
+
+/-! ### header names and values: the same enumeration of the samples -/
+
+/-- position `i * C + c` of a concatenation of blocks of length `C` is position `c` of block `i` -/
+theorem getElem?_flatMap_block {α β : Type} (f : α → List β) (C : Nat) : ∀ (l : List α),
+    (∀ a ∈ l, (f a).length = C) → ∀ (i c : Nat), c < C →
+      (l.flatMap f)[i * C + c]? = (l[i]?).bind (fun a => (f a)[c]?)
+  | [], _, i, c, _ => by simp
+  | a :: l, hlen, 0, c, hc => by
+    have h : c < (f a).length := by rw [hlen a List.mem_cons_self]; exact hc
+    simp [List.flatMap_cons, List.getElem?_append_left h]
+  | a :: l, hlen, i + 1, c, hc => by
+    have ha : (f a).length = C := hlen a List.mem_cons_self
+    have ih := getElem?_flatMap_block f C l (fun x hx => hlen x (List.mem_cons_of_mem _ hx)) i c hc
+    have hidx : (i + 1) * C + c = (f a).length + (i * C + c) := by rw [ha]; ring
+    rw [List.flatMap_cons, hidx, List.getElem?_append_right (by omega)]
+    simpa using ih
+
+theorem length_flatMap_block {α β : Type} (f : α → List β) (C : Nat) : ∀ (l : List α),
+    (∀ a ∈ l, (f a).length = C) → (l.flatMap f).length = l.length * C
+  | [], _ => by simp
+  | a :: l, hlen => by
+    have ih := length_flatMap_block f C l (fun x hx => hlen x (List.mem_cons_of_mem _ hx))
+    rw [List.flatMap_cons, List.length_append, ih, hlen a List.mem_cons_self, List.length_cons]
+    ring
+
+/-- the header block of one experiment -/
+def headerBlock (chans : List (List Char)) (e : List Char) : List (List Char) :=
+  if chans.isEmpty then [lfqHeader none e] else chans.map (fun c => lfqHeader (some c) e)
+
+theorem lfqHeaders_eq (chans exps : List (List Char)) : lfqHeaders chans exps = exps.flatMap (headerBlock chans) := rfl
+
+theorem length_headerBlock (chans : List (List Char)) (e : List Char) :
+    (headerBlock chans e).length = max 1 chans.length := by
+  unfold headerBlock
+  cases chans with
+  | nil => rfl
+  | cons c cs => simp
+
+/-- no value without a header and no header without a value -/
+theorem length_lfqHeaders (chans exps : List (List Char)) :
+    (lfqHeaders chans exps).length = numSamples exps.length chans.length := by
+  rw [lfqHeaders_eq, length_flatMap_block _ _ exps (fun a _ => length_headerBlock chans a)]
+  rfl
+
+theorem length_lfqValues {α : Type} (n C : Nat) (v : Nat → α) : (lfqValues n C v).length = numSamples n C := by
+  simp [lfqValues]
+
+theorem getElem?_lfqValues {α : Type} (n C : Nat) (v : Nat → α) (s : Nat) (hs : s < numSamples n C) :
+    (lfqValues n C v)[s]? = some (v s) := by
+  simp [lfqValues, hs]
+
+/-- the header at position `e * max 1 C + c` names experiment `e`, channel `c` -/
+theorem getElem?_lfqHeaders (chans exps : List (List Char)) (e c : Nat) (he : e < exps.length)
+    (hc : c < max 1 chans.length) :
+    (lfqHeaders chans exps)[e * max 1 chans.length + c]? =
+      some (if chans.isEmpty then lfqHeader none (exps.getD e []) else lfqHeader (some (chans.getD c [])) (exps.getD e [])) := by
+  rw [lfqHeaders_eq, getElem?_flatMap_block _ _ exps (fun a _ => length_headerBlock chans a) e c hc]
+  rw [List.getElem?_eq_getElem he]
+  simp only [Option.bind_some, List.getD_eq_getElem?_getD, List.getElem?_eq_getElem he, Option.getD_some]
+  unfold headerBlock
+  cases chans with
+  | nil =>
+    have : c = 0 := by simp at hc; omega
+    subst this
+    simp
+  | cons ch cs =>
+    have hc' : c < (ch :: cs).length := by simp at hc ⊢; omega
+    have hm : (List.map (fun c => lfqHeader (some c) exps[e]) (ch :: cs))[c]? =
+        some (lfqHeader (some (ch :: cs)[c]) exps[e]) := by
+      rw [List.getElem?_map, List.getElem?_eq_getElem hc']; rfl
+    simpa [List.getElem?_eq_getElem hc'] using hm
+
+/-- "the value under the header `LFQ Intensity <channel> <experiment>`" by POSITION: header list and value list are
+    the same experiment-major enumeration of the samples, so the pair at position `e * max 1 C + c` is
+    (name of sample (e, c), value of sample `e * max 1 C + c`) -/
+theorem getElem?_namedColumns {α : Type} (chans exps : List (List Char)) (v : Nat → α) (e c : Nat)
+    (he : e < exps.length) (hc : c < max 1 chans.length) :
+    (namedColumns chans exps v)[e * max 1 chans.length + c]? =
+      some (if chans.isEmpty then lfqHeader none (exps.getD e []) else lfqHeader (some (chans.getD c [])) (exps.getD e []),
+            v (e * max 1 chans.length + c)) := by
+  unfold namedColumns
+  have hs : e * max 1 chans.length + c < numSamples exps.length chans.length := by
+    unfold numSamples
+    have : (e + 1) * max 1 chans.length ≤ exps.length * max 1 chans.length := Nat.mul_le_mul_right _ he
+    have h2 : (e + 1) * max 1 chans.length = e * max 1 chans.length + max 1 chans.length := by ring
+    omega
+  rw [List.getElem?_zip_eq_some]
+  exact ⟨getElem?_lfqHeaders chans exps e c he hc, getElem?_lfqValues _ _ v _ hs⟩
+
+
+/-! ### reading the table back BY HEADER NAME -/
+
+theorem lfqHeader_some_inj {a b : Char} {e e' : List Char}
+    (h : lfqHeader (some [a]) e = lfqHeader (some [b]) e') : a = b ∧ e = e' := by
+  unfold lfqHeader at h
+  have h2 := List.append_cancel_left h
+  simp at h2
+  exact h2
+
+theorem lfqHeader_none_inj {e e' : List Char} (h : lfqHeader none e = lfqHeader none e') : e = e' := by
+  unfold lfqHeader at h
+  exact List.append_cancel_left h
+
+/-- distinct experiment names and distinct one-letter channel names give distinct header names -/
+theorem nodup_lfqHeaders (chans exps : List (List Char)) (hexp : exps.Nodup) (hch : chans.Nodup)
+    (h1 : ∀ c ∈ chans, c.length = 1) : (lfqHeaders chans exps).Nodup := by
+  rw [lfqHeaders_eq, List.nodup_flatMap]
+  constructor
+  · intro e _
+    unfold headerBlock
+    split
+    · simp
+    · apply List.Nodup.map_on _ hch
+      intro c hc c' hc' heq
+      obtain ⟨a, rfl⟩ := List.length_eq_one_iff.mp (h1 c hc)
+      obtain ⟨b, rfl⟩ := List.length_eq_one_iff.mp (h1 c' hc')
+      rw [(lfqHeader_some_inj heq).1]
+  · apply List.Pairwise.imp_of_mem _ hexp
+    intro e e' _ _ hne
+    unfold Function.onFun
+    rw [List.disjoint_left]
+    intro x hx hx'
+    apply hne
+    unfold headerBlock at hx hx'
+    split at hx
+    · rename_i hemp
+      simp only [hemp, if_true, List.mem_singleton] at hx hx'
+      subst hx
+      exact lfqHeader_none_inj hx'
+    · rename_i hemp
+      simp [hemp] at hx'
+      obtain ⟨c, hc, rfl⟩ := List.mem_map.mp hx
+      obtain ⟨c', hc', heq⟩ := hx'
+      obtain ⟨a, rfl⟩ := List.length_eq_one_iff.mp (h1 c hc)
+      obtain ⟨b, rfl⟩ := List.length_eq_one_iff.mp (h1 c' hc')
+      exact ((lfqHeader_some_inj heq).2).symm
+
+theorem lookup_of_getElem? {α β : Type} [BEq α] [LawfulBEq α] : ∀ (l : List (α × β)) (k : Nat) (a : α) (b : β),
+    (l.map Prod.fst).Nodup → l[k]? = some (a, b) → l.lookup a = some b
+  | [], k, a, b, _, h => by simp at h
+  | (a', b') :: l, 0, a, b, _, h => by
+    simp at h
+    obtain ⟨rfl, rfl⟩ := h
+    simp [List.lookup]
+  | (a', b') :: l, k + 1, a, b, hnd, h => by
+    simp only [List.getElem?_cons_succ] at h
+    rw [List.map_cons, List.nodup_cons] at hnd
+    have hne : (a == a') = false := by
+      rw [beq_eq_false_iff_ne]
+      rintro rfl
+      apply hnd.1
+      exact List.mem_map.mpr ⟨(a, b), List.mem_of_getElem? h, rfl⟩
+    rw [List.lookup, hne]
+    exact lookup_of_getElem? l k a b hnd.2 h
+
+theorem map_fst_namedColumns {α : Type} (chans exps : List (List Char)) (v : Nat → α) :
+    (namedColumns chans exps v).map Prod.fst = lfqHeaders chans exps := by
+  unfold namedColumns
+  apply List.map_fst_zip
+  rw [length_lfqHeaders, length_lfqValues]
+
+theorem map_snd_namedColumns {α : Type} (chans exps : List (List Char)) (v : Nat → α) :
+    (namedColumns chans exps v).map Prod.snd = lfqValues exps.length chans.length v := by
+  unfold namedColumns
+  apply List.map_snd_zip
+  rw [length_lfqHeaders, length_lfqValues]
+
+
+/-! ### fractions: the cell is the sum over the fractions of the best row of each fraction -/
+
+theorem rmax_eq_left {a b : Rat} (h : b ≤ a) : rmax a b = a := by
+  unfold rmax
+  split
+  · exact le_antisymm h ‹_›
+  · rfl
+
+theorem rmax_eq_right {a b : Rat} (h : a ≤ b) : rmax a b = b := by
+  unfold rmax; rw [if_pos h]
+
+theorem le_maxOf : ∀ (L : List Rat) (y : Rat), y ∈ L → y ≤ maxOf L
+  | x :: xs, y, h => by
+    rw [List.mem_cons] at h
+    unfold maxOf rmax
+    rcases h with rfl | h
+    · split
+      · assumption
+      · exact le_refl _
+    · have := le_maxOf xs y h
+      split
+      · exact this
+      · exact le_trans this (le_of_lt (not_le.mp ‹_›))
+
+theorem maxOf_nonneg : ∀ (L : List Rat), 0 ≤ maxOf L
+  | [] => le_refl _
+  | x :: xs => by
+    have := maxOf_nonneg xs
+    unfold maxOf rmax
+    split
+    · exact this
+    · exact le_trans this (le_of_lt (not_le.mp ‹_›))
+
+theorem maxOf_eq : ∀ (L : List Rat) (x : Rat), x ∈ L → (∀ y ∈ L, y ≤ x) → 0 ≤ x → maxOf L = x
+  | [], x, h, _, _ => by cases h
+  | z :: zs, x, h, hmax, h0 => by
+    apply le_antisymm
+    · unfold maxOf rmax
+      split
+      · -- maxOf zs ≤ x
+        cases zs with
+        | nil => exact h0
+        | cons w ws =>
+          -- every element of the tail is ≤ x, and the maximum of a non-empty list is one of its elements or 0
+          have : ∀ (M : List Rat), (∀ y ∈ M, y ≤ x) → maxOf M ≤ x := by
+            intro M
+            induction M with
+            | nil => intro _; exact h0
+            | cons m ms ih =>
+              intro hM
+              unfold maxOf rmax
+              split
+              · exact ih (fun y hy => hM y (List.mem_cons_of_mem _ hy))
+              · exact hM m List.mem_cons_self
+          exact this _ (fun y hy => hmax y (List.mem_cons_of_mem _ hy))
+      · exact hmax z List.mem_cons_self
+    · exact le_maxOf _ _ h
+
+/-- existence of a least element of a non-empty list for a total, transitive `le` -/
+theorem exists_min {α : Type} (le : α → α → Bool) (htot : ∀ a b, le a b = true ∨ le b a = true)
+    (htr : ∀ a b c, le a b = true → le b c = true → le a c = true) :
+    ∀ (L : List α), L ≠ [] → ∃ m ∈ L, ∀ q ∈ L, le m q = true
+  | [], h => absurd rfl h
+  | [a], _ => ⟨a, List.mem_cons_self, fun q hq => by
+      rw [List.mem_singleton] at hq; subst hq; rcases htot q q with h | h <;> exact h⟩
+  | a :: b :: r, _ => by
+    obtain ⟨m, hm, hmin⟩ := exists_min le htot htr (b :: r) (by simp)
+    rcases htot a m with h | h
+    · refine ⟨a, List.mem_cons_self, fun q hq => ?_⟩
+      rw [List.mem_cons] at hq
+      rcases hq with rfl | hq
+      · rcases htot q q with h' | h' <;> exact h'
+      · exact htr _ _ _ h (hmin q hq)
+    · refine ⟨m, List.mem_cons_of_mem _ hm, fun q hq => ?_⟩
+      rw [List.mem_cons] at hq
+      rcases hq with rfl | hq
+      · exact h
+      · exact hmin q hq
+
+theorem inCell_iff (k : String × Int) (s : Nat) (p : Prec) :
+    inCell k s p = true ↔ (p.peptide, p.charge) = k ∧ p.exp = s := by
+  simp [inCell]
+
+/-- within one group the `orderByPEP`-least precursor has the highest intensity -/
+theorem intensity_le_of_precLe {p q : Prec} (hg : sameGroup p q = true) (h : precLe p q = true) :
+    q.intensity ≤ p.intensity := by
+  rw [sameGroup_iff] at hg
+  rw [precLe_iff] at h
+  obtain ⟨e1, e2, e3, e4⟩ := hg
+  rcases h with h | ⟨_, h | ⟨_, h | ⟨_, h | ⟨_, h | ⟨h, _⟩⟩⟩⟩⟩
+  · exact absurd e1 (ne_of_lt h)
+  · exact absurd e2 (ne_of_lt h)
+  · exact absurd e3 (ne_of_lt h)
+  · exact absurd e4 (ne_of_lt h)
+  · exact le_of_lt h
+  · exact le_of_eq h
+
+/-- every group with an identified, quantified precursor has a selected representative -/
+theorem exists_selected_of_kept (c : Rat) (l : List Prec) (q : Prec) (hq : q ∈ l) (hk : keep c q = true) :
+    ∃ m ∈ selected c l, sameGroup m q = true := by
+  let G := l.filter (fun p => keep c p && sameGroup q p)
+  have hqG : q ∈ G := List.mem_filter.mpr ⟨hq, by simp [hk, sameGroup_refl]⟩
+  obtain ⟨m, hm, hmin⟩ := exists_min precLe precLe_total precLe_trans G (List.ne_nil_of_mem hqG)
+  have hm' := List.mem_filter.mp hm
+  simp only [Bool.and_eq_true] at hm'
+  refine ⟨m, (mem_selected c l m).mpr ⟨⟨hm'.1, hm'.2.1⟩, fun x hx hkx hg => ?_⟩, sameGroup_symm hm'.2.2⟩
+  apply hmin
+  exact List.mem_filter.mpr ⟨hx, by simp [hkx, sameGroup_trans hm'.2.2 hg]⟩
+
+/-- "MaxLFQ sums a precursor's intensity over the fractions of an experiment": the cell of (precursor `k`,
+    sample `s`) of the selected intensity matrix is `aggregateFractions` — for every fraction in which the precursor
+    has an identified, quantified row, the highest intensity among these rows, summed over the fractions -/
+theorem cell_eq_aggregateFractions (c : Rat) (l : List Prec) (k : String × Int) (s : Nat) :
+    cell (selected c l) k s = aggregateFractions c l k s := by
+  let S := (selected c l).filter (inCell k s)
+  have hcell : cell (selected c l) k s = (S.map (·.intensity)).sum := rfl
+  -- (1) each selected precursor of the cell carries the best intensity of its fraction
+  have hbest : ∀ p ∈ S, p.intensity = groupBest c l k s p.fraction := by
+    intro p hp
+    obtain ⟨hsel, hin⟩ := List.mem_filter.mp hp
+    obtain ⟨⟨hpl, hpk⟩, hleast⟩ := (mem_selected c l p).mp hsel
+    symm
+    unfold groupBest
+    apply maxOf_eq
+    · exact List.mem_map.mpr ⟨p, List.mem_filter.mpr ⟨hpl, by simp [hpk, hin]⟩, rfl⟩
+    · intro y hy
+      obtain ⟨q, hq, rfl⟩ := List.mem_map.mp hy
+      obtain ⟨hql, hq2⟩ := List.mem_filter.mp hq
+      simp only [Bool.and_eq_true, beq_iff_eq] at hq2
+      have hg : sameGroup p q = true := by
+        rw [sameGroup_iff]
+        have h1 := (inCell_iff k s p).mp hin
+        have h2 := (inCell_iff k s q).mp hq2.1.2
+        have h3 : (p.peptide, p.charge) = (q.peptide, q.charge) := h1.1.trans h2.1.symm
+        exact ⟨(Prod.mk.inj h3).1, (Prod.mk.inj h3).2, h1.2.trans h2.2.symm, hq2.2.symm⟩
+      exact intensity_le_of_precLe hg (hleast q hql hq2.1.1 hg)
+    · unfold keep at hpk
+      simp only [Bool.and_eq_true, decide_eq_true_eq] at hpk
+      exact le_of_lt hpk.1
+  -- (2) one selected precursor per fraction
+  have hnd : (S.map (·.fraction)).Nodup := by
+    unfold List.Nodup
+    rw [List.pairwise_map]
+    have hpw := (selected_pairwise c l).filter (inCell k s)
+    refine List.Pairwise.imp_of_mem ?_ hpw
+    intro a b ha hb hab heq
+    have h1 := (inCell_iff k s a).mp (List.mem_filter.mp ha).2
+    have h2 := (inCell_iff k s b).mp (List.mem_filter.mp hb).2
+    have h3 : (a.peptide, a.charge) = (b.peptide, b.charge) := h1.1.trans h2.1.symm
+    have : sameGroup a b = true := by
+      rw [sameGroup_iff]
+      exact ⟨(Prod.mk.inj h3).1, (Prod.mk.inj h3).2, h1.2.trans h2.2.symm, heq⟩
+    rw [this] at hab
+    exact absurd hab (by simp)
+  -- (3) every fraction with an identified, quantified row is represented
+  have hmem : ∀ f, f ∈ S.map (·.fraction) ↔ f ∈ fractionsOf c l k s := by
+    intro f
+    unfold fractionsOf
+    rw [mem_nub]
+    constructor
+    · intro hf
+      obtain ⟨p, hp, rfl⟩ := List.mem_map.mp hf
+      obtain ⟨hsel, hin⟩ := List.mem_filter.mp hp
+      obtain ⟨⟨hpl, hpk⟩, _⟩ := (mem_selected c l p).mp hsel
+      exact List.mem_map.mpr ⟨p, List.mem_filter.mpr ⟨hpl, by simp [hpk, hin]⟩, rfl⟩
+    · intro hf
+      obtain ⟨q, hq, rfl⟩ := List.mem_map.mp hf
+      obtain ⟨hql, hq2⟩ := List.mem_filter.mp hq
+      simp only [Bool.and_eq_true] at hq2
+      obtain ⟨m, hm, hg⟩ := exists_selected_of_kept c l q hql hq2.1
+      rw [sameGroup_iff] at hg
+      have hq3 := (inCell_iff k s q).mp hq2.2
+      refine List.mem_map.mpr ⟨m, List.mem_filter.mpr ⟨hm, ?_⟩, hg.2.2.2⟩
+      rw [inCell_iff]
+      refine ⟨?_, hg.2.2.1.trans hq3.2⟩
+      rw [← hq3.1, hg.1, hg.2.1]
+  have hperm : (S.map (·.fraction)).Perm (fractionsOf c l k s) :=
+    (List.perm_ext_iff_of_nodup hnd (nodup_nub _)).mpr hmem
+  rw [hcell]
+  unfold aggregateFractions
+  rw [← (hperm.map (groupBest c l k s)).sum_eq, List.map_map]
+  congr 1
+  apply List.map_congr_left
+  intro p hp
+  exact hbest p hp
+
+
+/-- the total is preserved through the aggregation over fractions: summing `aggregateFractions` over all
+    precursors and samples gives the total intensity the LFQ intensities are scaled to -/
+theorem sum_aggregateFractions (c : Rat) (l : List Prec) (n : Nat) (hn : ∀ p ∈ l, p.exp < n) :
+    ((rowKeys (selected c l)).map (fun k => ((List.range n).map (fun s => aggregateFractions c l k s)).sum)).sum =
+      total (selected c l) := by
+  rw [← matrix_sum n (selected c l) (fun p hp => hn p ((mem_selected c l p).mp hp).1.1)]
+  congr 1
+  apply List.map_congr_left
+  intro k _
+  congr 1
+  apply List.map_congr_left
+  intro s _
+  exact (cell_eq_aggregateFractions c l k s).symm
+
+/-! ### channel names, experiment list -/
+
+theorem silacChannels_spec {C : Nat} {chans : List (List Char)} (h : silacChannels C = some chans) :
+    chans.length = C ∧ chans.Nodup ∧ ∀ c ∈ chans, c.length = 1 := by
+  rcases C with _ | _ | _ | _ | n
+  · simp [silacChannels] at h; subst h; simp
+  · simp [silacChannels] at h
+  · simp [silacChannels] at h; subst h; decide
+  · simp [silacChannels] at h; subst h; decide
+  · simp [silacChannels] at h
+
+theorem experimentsOf_nodup (d : Option Design) (rows : List EvRow) : (experimentsOf d rows).Nodup := by
+  unfold experimentsOf
+  cases d <;> exact nodup_nub _
+
+theorem experiment_names_nodup (d : Option Design) (rows : List EvRow) :
+    ((experimentsOf d rows).map String.toList).Nodup :=
+  (experimentsOf_nodup d rows).map (fun _ _ h => String.toList_inj.mp h)
+
 end PgFdr.C11
